@@ -606,3 +606,20 @@ Proof.
     + destruct (IH _ _ _ H) as [A B]. split; [lia|]. replace (i - k)%nat with (S (i - S k)) by lia. exact B.
   - destruct (IH _ _ _ H) as [A B]. split; [lia|]. replace (i - k)%nat with (S (i - S k)) by lia. exact B.
 Qed.
+
+(* ------------------------------------------------------------------ chained calls *)
+Lemma chain_is_spec_l : forall l s1 s2 p, spec_chain l s1 s2 = Some p -> run_chain l s1 s2 = Some p.
+Proof.
+  intros l s1 s2 p H. unfold spec_chain in H. unfold run_chain.
+  destruct (spec_step l s1) as [[r1 a1]|] eqn:E1; [|discriminate].
+  rewrite (step_is_spec_l _ _ _ E1). cbn [fst snd].
+  destruct r1 as [| | | |l1|]; try discriminate.
+  destruct (spec_step l1 s2) as [[r2 a2]|] eqn:E2; [|discriminate].
+  rewrite (step_is_spec_l _ _ _ E2). cbn [fst]. exact H.
+Qed.
+(* a chain leaves the receiver exactly as its first call alone does *)
+Lemma chain_receiver_l : forall l s1 s2 p, run_chain l s1 s2 = Some p -> snd p = snd (do_step l s1).
+Proof.
+  intros l s1 s2 p H. unfold run_chain in H. destruct (fst (do_step l s1)); try discriminate.
+  injection H as <-. reflexivity.
+Qed.
